@@ -61,6 +61,9 @@ func Run(prop, tier string, c *core.Choices, trace bool) *harness.RunResult {
 				mainTrace = append(mainTrace, "VIOLATION C12.isolation: "+msg)
 			}
 			res.Stats["c12.isolation-checked-runs"]++
+			if w.maxInfl == 1 {
+				res.Stats["probe.isolation-checked-on-sequential-run"]++
+			}
 		} else {
 			res.Stats["c12.isolation-skipped-unscripted-faults"]++
 		}
@@ -148,7 +151,7 @@ func AddWithArgsAnnotation(ns, name, argsAnnotation string) (decoded []DecodedIP
 	cfg.Nets = []*NetDef{{Name: "galaxy-k8s-vlan", Type: "galaxy-k8s-vlan", HasName: false, Form: "json", Version: "0.2.0", Extra: map[string]interface{}{}}}
 	cfg.DefaultNets = []string{"galaxy-k8s-vlan"}
 	cfg.configFiles(core.ReplayChoices(0, nil))
-	p := &PodDef{Idx: 0, NS: ns, Name: name, Annotations: map[string]string{annArgs: argsAnnotation}, Sandboxes: 1,
+	p := &PodDef{Idx: 0, NS: ns, Name: name, KubeIf: "eth0", Annotations: map[string]string{annArgs: argsAnnotation}, Sandboxes: 1,
 		Expect: []ExpNet{{Net: "galaxy-k8s-vlan", Type: "galaxy-k8s-vlan", IfName: "eth0"}}, AnnForm: "none"}
 	cfg.Pods = []*PodDef{p}
 	w := NewWorld(s, "C13", cfg, &SoloSpec{PodIdx: 0, Cmds: []string{"ADD"}})
